@@ -54,6 +54,19 @@ Added probe families (helpers in harness/s5_c13.py):
    model's token list (`scandef`) with the tokens of `re.Scanner` over the live regex table; the live regex table itself is compared with
    the table the model was written against.  Hand-written edge texts (v1.EDGE_TEXTS), random token soup and character-level mutants of generated definitions exercise the error
    paths and the scanner quirks (these texts are mostly rejected; only the model/implementation agreement is checked on them).
+ * name collisions across unrelated definitions (round 7, helpers in harness/v8_c13.py; the order-independence differential on them):
+   definition sets in which members of 1-3 NAMED enums / flags (13 underlying types or the default one; values as literals, implicit,
+   expressions over earlier members of the same enum - `GREEN = RED + 1`, `W = R << 1` - and over free constants) carry the names of
+   constants that are otherwise unrelated: `#define RED 10`, `#define RED (9 + 1)`, members of anonymous enums / flags (with members of
+   their own computed from them), plus definitions computed from those constants (`#define D (RED + 2)`, `uint8 pad[RED]`) and
+   consumers of the enums (struct / union with scalar, array and bit-field members, typedef aliases); either endianness, compiled /
+   interpreted, aligned / packed.  Every set is loaded colliders-first, colliders-last and in random dependency-respecting orders, as one
+   text, as one load() per definition, split over 2-3 load() calls, and with plain / rich / comment-only separators at the token
+   boundaries (also between the operands of the member expressions): every variant must be accepted and give the observation of the
+   reference text (type descriptions, member tables, parses of a random probe and of every member value alone and through the
+   consumers, constants, identity partition, registered names); the enums and their consumers loaded without the colliders must look
+   the same; the member tables must be the C numbering with the enum's own members in scope, the constants keep their own values.
+   The reference text and half of the one-text mutants also go to the definition-parser correspondence.
 """
 from __future__ import annotations
 
@@ -62,6 +75,7 @@ import itertools
 from .. import common, impl
 from .. import s5_c13 as s5
 from .. import v1_c13 as v1
+from .. import v8_c13 as v8
 from ..common import A, Case, Result, mkrng, parse_sexp, run_driver, sx
 from ..structprops import rand_bytes
 
@@ -537,7 +551,12 @@ def run(env) -> Result:
                 "null-terminated, member-sized array members), int48 next to uint48; permutations split over several load() calls; "
                 "struct/union declarator forms (typedef or not, tagged or anonymous, one name or a name list) with separators between declarator "
                 "name and ';' / ','; type __name__ and registered names compared exactly; re-declaration (text forms and cs.add_type) of names "
-                "bound to zero-sized (empty struct/union, void, T[0]) and dynamically sized (member-sized / null-terminated arrays, LEB128) targets")
+                "bound to zero-sized (empty struct/union, void, T[0]) and dynamically sized (member-sized / null-terminated arrays, LEB128) targets; "
+                "name collisions across unrelated definitions: named enums / flags whose members (referred to by later members: B = A + 1) are "
+                "named like #define constants / members of anonymous enums, with derived constants and consumer structures, loaded "
+                "colliders-first / colliders-last / in random dependency-respecting orders x one text / one load() per definition / split / "
+                "layout mutants x endianness x compiled x align: same observation as the reference text, same as without the colliders, "
+                "member tables = C numbering with the enum's own members in scope")
     dc = impl.dc()
     rnd = mkrng(env["seed"], "c13")
     tier = env["tier"]
@@ -681,6 +700,8 @@ def run(env) -> Result:
             viol("blanks inside array brackets changed the resulting types", cd)
     redeclaration_probes(res, viol, dc, mkrng(env["seed"], "c13-redeclare"), 240 if tier == "quick" else 3000)
     option_history_probes(res, viol, dc, mkrng(env["seed"], "c13-options"), 40 if tier == "quick" else 600)
+    # name collisions across unrelated definitions: enum / flag members named like #define constants / anonymous-enum members (v8_c13)
+    v8.collision_probes(res, viol, dc, mkrng(env["seed"], "c13-collision"), 36 if tier == "quick" else 300, tier, probe_parser)
     # ---- alias laws
     cs = dc.cstruct()
     for name, target in cs.typedefs.items():
@@ -765,7 +786,7 @@ def run(env) -> Result:
 
 
 def replay(body) -> int:
-    """re-evaluate a recorded case of the layout / redeclare / options families on the current tree: 1 = it still fails"""
+    """re-evaluate a recorded case of the layout / redeclare / options / collision families on the current tree: 1 = it still fails"""
     print("replay:", body.get("what"))
     case = body.get("case") or {}
     dc = impl.dc()
@@ -801,6 +822,12 @@ def replay(body) -> int:
         problems = s5.eval_option_history(dc, signature, case["groups"], case["history"], bytes.fromhex(case["probe"]))
         for p in problems:
             print("still fails:", p[1])
+        if problems:
+            return 1
+    elif fam == "collision":
+        problems = v8.eval_case(dc, __import__("sys").modules[__name__], case)
+        for p in problems:
+            print("still fails:", p)
         if problems:
             return 1
     else:
